@@ -107,9 +107,42 @@ def gen_reduction_entry(rng):
     return {"scribble": rng.random() < 0.5, "recipe": recipe, "x": x, "targets": [x], "history": hist}
 
 
+def gen_nested_window(rng):
+    """Structured scenario: a native sliding-window reduction x whose consumer is ANOTHER sliding-window
+    reduction (planned on x's advertised chunks); the consumer is applied to x, to x.persist() (blocks follow
+    the advertised chunks) and to x.optimize()."""
+    shape = [rng.choice([5, 6, 8]), rng.choice([5, 6, 8])]
+    srcs = {"s0": {"shape": shape, "dtype": rng.choice(["f8", "i8"]), "offset": rng.randint(0, 9), "kind": "ndarray"}}
+    steps = [{"op": "from_array", "in": [], "args": {"src": "s0", "chunks": rng.choice([list(shape), [-1, -1], [rng.choice([2, 3, 5]), rng.choice([2, 3, 5])]])},
+              "out": "v0"},
+             {"op": "window", "in": ["v0"], "args": {"axis": 0, "w": rng.randint(2, 4), "reduce": rng.choice(["max", "min", "sum"])}, "out": "v1"},
+             {"op": "window", "in": ["v1"], "args": {"axis": rng.choice([0, 1]), "w": rng.randint(2, 3), "reduce": rng.choice(["sum", "max"])}, "out": "v2"}]
+    hist = [{"ev": "build", "var": "v1"}]
+    returned, k = [], 0
+    for e in rng.sample(["persist:method", "optimize", "persist:dask", "doptimize"], rng.randint(1, 3)):
+        k += 1
+        if e.startswith("persist:"):
+            hist.append(dict({"ev": "persist", "var": "v1", "entry": e.split(":")[1], "out": f"p{k}"}, **H.rand_sched(rng)))
+            returned.append(f"p{k}")
+        elif e == "optimize":
+            hist.append({"ev": "optimize", "var": "v1", "out": f"o{k}"})
+            returned.append(f"o{k}")
+        else:
+            hist.append({"ev": "doptimize", "var": "v1", "out": f"d{k}"})
+            returned.append(f"d{k}")
+    for s_ in ["v1"] + returned:
+        k += 1
+        hist.append({"ev": "derive", "as": "v2", "subst": {"v1": s_}, "out": f"f{k}"})
+        hist.append(dict({"ev": "compute", "var": f"f{k}", "entry": "method"}, **H.rand_sched(rng)))
+    return {"scribble": False, "recipe": {"sources": srcs, "generators": {}, "steps": steps}, "x": "v1", "targets": ["v1", "v2"], "history": hist}
+
+
 def gen(rng, tier):
-    if rng.random() < 0.1:
+    r0 = rng.random()
+    if r0 < 0.1:
         return gen_reduction_entry(rng)
+    if r0 < 0.13:
+        return gen_nested_window(rng)
     ctx = G.Ctx(rng)
     names = sorted(G.OPS)
     ctx.enabled = G.swarm_subset(rng, names, 0.75, always=("from_array", "rechunk", "binary", "reduction"))
